@@ -43,6 +43,16 @@ case "${1:-}" in
         shift
         exec "$VERIF/target/release/slx-sim" selftest "$@"
         ;;
+    C01)
+        build
+        # C01 also runs under the same optimised build with debug assertions
+        # on (what a user's debug build of the library has).
+        if ! cargo build --profile devlike --offline >"$VERIF/target/build_devlike.log" 2>&1; then
+            echo "harness error: devlike build failed (see $VERIF/target/build_devlike.log)" >&2
+            exit 2
+        fi
+        SLX_SECOND_PROFILE_BIN="$VERIF/target/devlike/slx-sim" exec "$VERIF/target/release/slx-sim" check C01 --tier "${2:-${VERIF_TIER:-quick}}"
+        ;;
     C[0-9][0-9])
         build
         exec "$VERIF/target/release/slx-sim" check "$1" --tier "${2:-${VERIF_TIER:-quick}}"
